@@ -53,7 +53,9 @@ ASSUMPTIONS = ["value equalities are claimed for same-family unit pairs (day<mon
                "aligned to the definition unit (ADD) or to the request unit (DIVIDE); cross-family cells and unaligned "
                "starts are compared model-vs-code only",
                "oracle-only streams (harness/c03_special.py; the Coq side receives CSkip): float variables with +/-inf, "
-               "NaN and -0.0 defaults and inputs, request periods given as text, and Period.get_subperiods on tens of "
+               "NaN and -0.0 defaults and inputs, request periods given as text, the same ADD / DIVIDE request repeated on "
+               "one simulation while the inputs of its pieces change (Simulation.set_input, the holder's set_input, "
+               "delete_arrays, a clone and its original diverging), and Period.get_subperiods on tens of "
                "thousands of pieces, each compared with the property's statement computed from plain calculate calls "
                "on a second simulation and the datetime calendar; one engine case per run sums a day variable over "
                "more than 32767 days and does go through the Coq correspondence",
@@ -684,6 +686,8 @@ def generate(rng, tier):
         cases.append(c03_special.gen_string(rng, me))
     for _ in range(nb):
         cases.append(c03_special.gen_subperiods(rng, me))
+    for _ in range({"quick": 60, "escalated": 200, "thorough": 600}[tier]):
+        cases.append(c03_special.gen_history(rng, me))
     for _ in range(nscale):
         cases.append(c03_special.scale_case(rng, me))
     return cases
